@@ -47,6 +47,25 @@ def constraint_violating_binding(b):
     return False
 
 
+def one_id_two_constraint_lists(b):
+    """a failed completeness law ("no match") whose expanded pattern uses one metavariable id with two different
+    constraint lists and leaves that id uninstantiated: the instance then keeps both occurrences, and no substitution keyed
+    by id (what match_single returns) can map the id to both"""
+    a = b['python']
+    if not (b['request'].startswith('law-match-complete') and a.startswith('(false no-match') and '(pattern' in a):
+        return False
+    try:
+        x = sx.parse(a)[0]
+        pat = sx.pat_of_sx(next(t for t in x if isinstance(t, list) and t and t[0] == 'pattern')[1])
+        keys = {int(k) for k in next(t for t in x if isinstance(t, list) and t and t[0] == 'theta-keys')[1:]}
+    except Exception:   # noqa
+        return False
+    for mid, recs in mv_records(pat, {}).items():
+        if mid not in keys and len(set(recs)) > 1:
+            return True
+    return False
+
+
 def subst_free(rng, depth):
     return gen.gen_npat(rng, depth, constrained=0.0, subst=0.0)
 
@@ -96,7 +115,7 @@ def run(rep):
         'successful_matches': sum(1 for a in pa if a.startswith('(some')), 'failed_matches': sum(1 for a in pa if a == 'none'),
         'samples': [lines[0], lines[1], lines[2], laws[0], laws[2], laws[-1]],
     })
-    n_known = 0
+    n_known = n_two = 0
     for b in bad:
         if constraint_violating_binding(b):
             # match_single binds a metavariable to a pattern that violates the constraints the metavariable declares
@@ -104,8 +123,16 @@ def run(rep):
             n_known += 1
             rep.violation('match_single binds a constrained metavariable to a pattern that violates its constraints: ' + b['python'][:120],
                           b, True, key='py-match:constraint-violating-binding')
-    bad = [b for b in bad if not constraint_violating_binding(b)]
+        elif one_id_two_constraint_lists(b):
+            # a pattern that uses one metavariable id under two constraint lists and is matched against itself (the id
+            # is not instantiated): the only solution is "leave it", which an id-keyed answer cannot say.  Recorded
+            # open finding; minimal instance: match_single(p, p.instantiate({})) is None for p = phi0 -> phi0{e_fresh x0}
+            n_two += 1
+            rep.violation('match_single fails on an instance that leaves a metavariable id with two constraint lists uninstantiated: '
+                          + b['python'][:60], b, True, key='py-match:one-id-two-constraint-lists')
+    bad = [b for b in bad if not (constraint_violating_binding(b) or one_id_two_constraint_lists(b))]
     rep.coverage['constraint_violating_bindings'] = n_known
+    rep.coverage['one_id_two_constraint_lists'] = n_two
     for b in bad[:8]:
         rep.violation('matching law fails on the real code: ' + b['python'][:80], b, True, key='py-match:' + b['request'])
     if not bad:
